@@ -40,7 +40,7 @@ type KV struct {
 
 // SOp is one step of the write script.
 type SOp struct {
-	Op    string   `json:"op"` // open | write | commit | close | reopen
+	Op    string   `json:"op"` // open | write | commit | close | reopen | gc
 	Keys  []uint32 `json:"keys"`
 	Start int64    `json:"start"`
 	Auto  bool     `json:"auto"`
@@ -162,6 +162,23 @@ func NewEnv(s Setup) (*Env, error) {
 		e.Chans[c.Key] = c
 	}
 	return e, nil
+}
+
+// dataBytes is the total size of the channels' domain data files.
+func (e *Env) dataBytes() (n int64) {
+	for k := range e.Chans {
+		dir := "db/" + strconv.Itoa(int(k))
+		infos, err := e.FS.List(dir)
+		if err != nil {
+			continue
+		}
+		for _, i := range infos {
+			if isDataFile(i.Name()) {
+				n += i.Size()
+			}
+		}
+	}
+	return
 }
 
 func (e *Env) Close() {
@@ -374,6 +391,14 @@ func (e *Env) Step(o SOp) (r SRes) {
 		err := e.W.Close()
 		e.W = nil
 		return fail(err)
+	case "gc":
+		// one synchronous pass of the garbage collector the background ticker runs
+		before := e.dataBytes()
+		if err := e.DB.VerifC01GC(e.Ctx); err != nil {
+			return fail(err)
+		}
+		// Msg only informs the coverage histogram: how many bytes the pass reclaimed
+		return SRes{Msg: fmt.Sprintf("reclaimed=%d", before-e.dataBytes())}
 	case "reopen":
 		if e.W != nil {
 			_ = e.W.Close()
